@@ -462,10 +462,30 @@ func installStringModels(m *Machine) {
 			return nil, false
 		}
 		key := fmt.Sprintf("builder:%d:%s", p.Obj, p.Path)
-		for _, o := range st.Heap {
-			if bv, ok := o.V.(*StructV); ok && len(bv.F) == 2 {
-				if k, ok := bv.F[0].(string); ok && k == key {
-					return o, true
+		// the cell hangs off the builder value itself (its first field), so that `b = strings.Builder{}` and a
+		// builder declared inside a loop start empty again; a builder that cannot be loaded as a struct (an opaque
+		// or partially known object) falls back to a cell keyed by its address
+		linked := false
+		if bv, ok := st.load(p); ok {
+			if sv, isS := bv.(*StructV); isS && len(sv.F) > 0 {
+				linked = true
+				if cp, isPtr := sv.F[0].(Ptr); isPtr {
+					if co, has := st.Heap[cp.Obj]; has {
+						if cv, isCell := co.V.(*StructV); isCell && len(cv.F) == 2 {
+							if k, isStr := cv.F[0].(string); isStr && strings.HasPrefix(k, "builder:") {
+								return co, true
+							}
+						}
+					}
+				}
+			}
+		}
+		if !linked {
+			for _, o := range st.Heap {
+				if bv, ok := o.V.(*StructV); ok && len(bv.F) == 2 {
+					if k, ok := bv.F[0].(string); ok && k == key {
+						return o, true
+					}
 				}
 			}
 		}
